@@ -13,7 +13,7 @@ use crate::util::*;
 
 pub fn run() {
 	let cx = ctx();
-	cx.note("rule", json!("event-level exploration as C04 (all histories of the recorder grammar within the deviation bound, all regimes) driving parse_header, parse_start, parse_event*, parse_metadata over an environment-owned reader: after EVERY call bytes_read() == raw bytes consumed == bytes the reader handed out (no read-ahead), frames().len() never decreases, every completed row equals the model; at the end start/end/metadata/gecko/len/frame(i) through the Game trait equal the one-shot game. Histories x {full reads, 1-byte chunks, 7-byte chunks}; 6 base replays x every two-piece split, every chunk size, every single short read at every read call (thorough: every pair). Non-trivial = history with absence/rollback/items, or a non-default schedule"));
+	cx.note("rule", json!("event-level exploration as C04 (all histories of the recorder grammar within the deviation bound, all regimes) driving parse_header, parse_start, parse_event*, parse_metadata over an environment-owned reader: after EVERY call bytes_read() == raw bytes consumed == bytes the reader handed out (no read-ahead), frames().len() never decreases, every completed row equals the model; at the end start/end/metadata/gecko/len/frame(i) through the Game trait equal the one-shot game. Histories x {full reads, 1-byte chunks, 7-byte chunks}; 6 replays x an unknown event of each of 6 (code,size) kinds up to 65,535 bytes at every event boundary; 6 base replays x every two-piece split, every chunk size, every single short read at every read call (thorough: every pair). Non-trivial = history with absence/rollback/items, or a non-default schedule"));
 	cx.note("exhaustive", json!(true));
 	cx.note("assumptions", json!(["a row counts as completed when the reference walker has seen the event that closes it (Frame End >= 3.0; the next frame's first event or Game End before)", "for a stream without Game End the last pre-3.0 frame is never completed incrementally and is not compared"]));
 	let aspects = A_ROWS | A_BYTES | A_FINAL;
@@ -70,6 +70,28 @@ pub fn run() {
 			eval_case("incremental", o_incremental, &bytes, &p, || format!("{} sched={:?}", abs.describe(), s), local);
 		}
 	});
+	// events with codes the parser does not know (sizes 1 .. 65,535, the largest the table can declare), at
+	// every event boundary: the byte accounting and the rows must not be disturbed by them
+	{
+		let mut ujobs = vec![];
+		for a in crate::checks::c08::bases(true) {
+			let doc = Arc::new(record(&a).doc);
+			for at in 1..=doc.events.len() {
+				for k in 0..crate::checks::c08::UNKNOWN.len() {
+					ujobs.push((doc.clone(), a.describe(), k, at));
+				}
+			}
+		}
+		cx.note("unknown_event_cases", json!(ujobs.len()));
+		par_each(ujobs.into_iter(), |(doc, label, k, at), local| {
+			let bytes = Arc::new(crate::checks::c08::with_unknown(&doc, &[(k, at)]));
+			let s = [Sched::Full, Sched::Chunk(7), Sched::Chunk(4096)][(k + at) % 3].clone();
+			let mut p = P { class: "unknown-event", ..Default::default() };
+			set_sched(&mut p, &s);
+			p.n[0] = aspects;
+			eval_case("incremental", o_incremental, &bytes, &p, || format!("{} + unknown event kind {} at boundary {} sched={:?}", label, k, at, s), local);
+		});
+	}
 	let mut jobs = vec![];
 	for (a, _) in bases() {
 		let bytes = Arc::new(record(&a).doc.assemble());
